@@ -386,9 +386,9 @@ end
 /-! ### the probes of Gen/Recorded.lean, as the model sees them -/
 
 def probeP : Val := .tuple [.str [112, 114, 111, 98, 101, 46, 80], .int 11, .int 22]          -- ("probe.P", 11, 22)
-def probeObj : Val := .tuple [.str [112, 114, 111, 98, 101, 46, 79, 98, 106], .int 44, .int 55] -- ("probe.Obj", 44, 55)
+def probeObj : Val := .tuple [.str [103, 101, 110, 95, 112, 114, 111, 116, 111, 95, 99, 111, 110, 115, 116, 115, 46, 79, 98, 106], .int 44, .int 55]   -- ("gen_proto_consts.Obj", 44, 55)
 def probeQ : Val := .tuple [.str [112, 114, 111, 98, 101, 46, 81], .int 12, .int 23]          -- ("probe.Q", 12, 23)
-def probeSvc : Val := .tuple [.str [112, 114, 111, 98, 101, 46, 83, 118, 99], .int 66, .int 77] -- ("probe.Svc", 66, 77)
+def probeSvc : Val := .tuple [.str [103, 101, 110, 95, 112, 114, 111, 116, 111, 95, 99, 111, 110, 115, 116, 115, 46, 83, 118, 99], .int 66, .int 77]   -- ("gen_proto_consts.Svc", 66, 77)
 
 /-- the five objects `Connection._box` was run on when the facts were recorded -/
 def boxProbes : List (String × Code.Obj) :=
